@@ -10,9 +10,10 @@ from props._gen import H
 RULE = ('2..16 threads released by a barrier, each running 40 seeded operations per round (one-shot AEAD, SIV, incremental sessions, ISAP '
         'with a SHARED pre-computed key, masked AEAD encrypt/decrypt with a SHARED masked key, hash, customised XOF, HMAC, KMAC, HKDF, '
         'PBKDF2, PRF/MAC/verify, the global ascon_random() and per-thread PRNG objects, hex) on their own objects and on shared const '
-        'inputs, with sched_yield injected between operations; many short rounds.  Oracles: ThreadSanitizer (instrumented C/C++ of '
+        'inputs (incl. HMAC/HKDF/PBKDF2 keys longer than the 64-byte block), with sched_yield injected between operations; many short rounds.  Oracles: ThreadSanitizer (instrumented C/C++ of '
         'library + harness), helgrind and DRD on the uninstrumented -O3 build (assembly accesses included), and equality of every '
-        'per-thread result with the same operation executed sequentially before the threads start.  Detector liveness: a planted '
+        'per-thread result with the same operation executed sequentially after the threads are joined; cold starts: one fresh process per '
+        'operation kind (24) whose 8 threads begin with that kind, so lazily initialised state is first touched concurrently.  Detector liveness: a planted '
         'unsynchronised counter must be reported by each detector.  distinct = (build+detector, thread count, round)')
 ASSUME = ['schedules are sampled; happens-before detectors report a race even when the bad interleaving did not occur',
           'the CHECK_ACQUIRE_RELEASE debugging build has one documented global flag and is excluded']
@@ -41,7 +42,7 @@ def vg_reports(paths):
 def run(ctx):
     ctx.rule, ctx.assumptions = RULE, ASSUME
     h = H['mt']
-    tsan_cfgs = [Cfg('asm'), Cfg('c32', (3, 3, 3))] + ([Cfg('c64', (2, 1, 2)), Cfg('dxor', (4, 4, 4)), Cfg('generic')] if ctx.thorough else [])
+    tsan_cfgs = [Cfg('asm'), Cfg('c32', (3, 3, 3)), Cfg('generic')] + ([Cfg('c64', (2, 1, 2)), Cfg('dxor', (4, 4, 4))] if ctx.thorough else [])
     vg_cfgs = [Cfg('asm')] + ([Cfg('c64', (3, 3, 3))] if ctx.thorough else [])
     builds = ctx.build_many([(c, 'tsan') for c in tsan_cfgs] + [(c, 'rel') for c in vg_cfgs])
     rounds = 400 if ctx.thorough else 60
@@ -64,6 +65,10 @@ def run(ctx):
             ctx.counters['tsan_canary_detected'] = ctx.counters.get('tsan_canary_detected', 0) + 1
             for T in ((2, 4, 8, 16) if ctx.thorough else (4, 16)):
                 ctx.run_harness(b, exe, 'mt', cases=rounds, extra_args=['--arg', str(T)], shards=4, prop='C16', timeout=3000)
+            # cold starts: one fresh process per operation kind, 8 threads whose first operations all have that kind and no
+            # sequential warm-up before them (lazily initialised tables/caches are first touched concurrently)
+            for kind in range(24):
+                ctx.run_harness(b, exe, 'mt-cold', cases=2 if not ctx.thorough else 6, extra_args=['--arg', 'cold:%d' % kind], shards=1, prop='C16', timeout=3000)
             ctx.distinct.add('detector|tsan|' + b.cfg.name)
         else:
             for tool in ('helgrind', 'drd'):
